@@ -36,6 +36,26 @@ def regenerate():
     return {}
 
 
+# AST fingerprint (comments / layout ignored) of _psd_safe_cholesky + psd_safe_cholesky as transcribed in coq/C16/Model.v.
+# Purely informational (evidence key `source_matches_transcription`): a differing source whose behaviour still agrees with
+# the model is a harmless rewrite; it tells the maintainer that Model.v should be re-read against the new text.
+TRANSCRIBED_AST_SHA = ("d127c93f37408f2836cbfa2bd6a893d3a706dea0af46737e461e7fe870cd3e79",      # pinned tree
+                       "4d9b5844a81156cbe803a2cb1a10067076da56dc736b06380f00c978d7ea9848",      # + proposed fix C16-max-tries-zero
+                       )
+
+
+def source_fingerprint():
+    import ast
+    import hashlib
+    try:
+        src = open(os.path.join(common.REPO, "linear_operator", "utils", "cholesky.py")).read()
+        parts = [ast.dump(n) for n in ast.parse(src).body
+                 if isinstance(n, ast.FunctionDef) and n.name in ("_psd_safe_cholesky", "psd_safe_cholesky")]
+        return hashlib.sha256("\n".join(parts).encode()).hexdigest()
+    except Exception as ex:  # noqa
+        return "unreadable: %r" % (ex,)
+
+
 # ------------------------------------------------------------------------------------------------
 # the library under test (imported lazily so that VERIF_REPO is honoured through PYTHONPATH)
 
@@ -247,7 +267,9 @@ def enumerate_cells(quick):
 # ------------------------------------------------------------------------------------------------
 # building a concrete case from a cell
 
-SCALES = {"float64": [2.0 ** -8, 1.0, 2.0 ** 4], "float32": [2.0 ** -8, 1.0, 2.0 ** 4]}
+# powers of 4 (square roots stay exact for the integer families); the last entry is a fallback for cells whose jitter is tiny
+# relative to the matrix norm (float32, large n)
+SCALES = {"float64": [2.0 ** -8, 1.0, 2.0 ** 4, 2.0 ** -16], "float32": [2.0 ** -8, 1.0, 2.0 ** 4, 2.0 ** -16]}
 
 
 def effective(cell, defaults):
@@ -295,9 +317,9 @@ def build_case(cell, rng, defaults):
     """-> case dict or None (no robust instance found for this cell)"""
     dtype, n, pat = cell["dtype"], cell["n"], cell["pat"]
     j, mt = effective(cell, defaults)
-    order = [cell["scale_i"], (cell["scale_i"] + 1) % 3, (cell["scale_i"] + 2) % 3]
-    for attempt in range(9):
-        scale = SCALES[dtype][order[attempt % 3]]
+    order = [cell["scale_i"], (cell["scale_i"] + 1) % 3, (cell["scale_i"] + 2) % 3, 3]
+    for attempt in range(12):
+        scale = SCALES[dtype][order[attempt % 4]]
         members, exact = [], []
         for kind in pat:
             a, ex = gen_member(rng, kind, n, dtype, scale, j, mt)
@@ -720,6 +742,12 @@ def run(ctx):
     t0 = time.time()
     regenerate()
     quick = ctx.quick
+    for f in os.listdir(ctx.gen):            # stale shards of earlier runs
+        if f.startswith("cases_c16_"):
+            try:
+                os.remove(os.path.join(ctx.gen, f))
+            except OSError:
+                pass
 
     def on_fail(info):
         cs, _, df = generate(ctx.seed, False, limit=None if not quick else 2500)
@@ -737,7 +765,9 @@ def run(ctx):
         for s in range(0, len(cases), SH):
             shards.append(("c16_%d" % (s // SH),
                            shard_src([case_lit(c, o, defaults) for c, o in zip(cases[s:s + SH], observations[s:s + SH])])))
-        res = common.run_shards(ctx, shards)
+        res = {}
+        for g in range(0, len(shards), 6):          # at most 6 shard compilers at a time
+            res.update(common.run_shards(ctx, shards[g:g + 6]))
         for si, (name, _) in enumerate(shards):
             rc, out = res[name]
             bad = common.parse_coq_list_of_nat(out) if rc == 0 else None
@@ -798,6 +828,7 @@ def run(ctx):
         "direct_property_failures": direct, "direct_failure_keys": sorted(direct_keys),
         "outcomes": outcome, "member_families": fam, "mixed_batches_with_jitter": mixed,
         "wall_impl_s": round(t_impl, 1),
+        "source_ast_sha": source_fingerprint(), "source_matches_transcription": source_fingerprint() in TRANSCRIBED_AST_SHA,
         "samples": [slim(cases[len(cases) // 3], observations[len(cases) // 3]), slim(cases[(2 * len(cases)) // 3], observations[(2 * len(cases)) // 3])],
     })
     ctx.assumptions = [
@@ -825,8 +856,13 @@ def replay(rp):
         ex = expected(case, defaults)
         print("expected:", KIND_NAME[ex["kind"]], "warnings", [ex["j"] * 10 ** i for i in range(ex["nwarn"])], "per-member shifts", ex["shifts"])
     ctx = common.Ctx(PROP, "replay", 0)
-    res = common.run_shards(ctx, [("c16_replay_%d" % os.getpid(), shard_src([case_lit(case, obs, defaults)]))])
+    name = "c16_replay_%d" % os.getpid()
+    res = common.run_shards(ctx, [(name, shard_src([case_lit(case, obs, defaults)]))])
     rc, out = list(res.values())[0]
+    try:
+        os.remove(os.path.join(ctx.gen, "cases_%s.v" % name))
+    except OSError:
+        pass
     bad = common.parse_coq_list_of_nat(out) if rc == 0 else None
     print("model (coq/C16/Model.v on PrimFloat) vs implementation:",
           "agree" if bad == [] else ("disagree on " + REASON.get(bad[0] % 16, "?") if bad else "shard failed: " + out[-300:]))
